@@ -11,10 +11,10 @@
   Hypotheses carried:
     * bracket theorems, `wordBoundaries_16`, `wordUnderCursor_16`: none (all inputs, also `l = r`,
       cursor beyond the end of the text);
-    * `wordBoundaries_08`: `SpOkB sp big` = (WORD = True) ∨ (`sp` — the regex class `\s` — matches no
-      `[a-zA-Z0-9_]`): `C08.cls` tests `\s` first, `C02.clsWord` tests `[a-zA-Z0-9_]` first (as the regex
-      alternation does), so the models differ for an (impossible) `\s` that contains a word character:
-      `wordBoundaries_08_disagree`.
+    * `wordBoundaries_08`: none (any `sp`, WORD, trailing flag, cursor).  History: until the C08 model
+      was repaired (`C08.cls` tested `\s` before `[a-zA-Z0-9_]`, unlike the regex alternation and
+      `C02.clsWord`) this needed the hypothesis "`\s` contains no word character" and the models
+      differed for `sp = (· == 'a')`, text "a", cursor 0.
 -/
 import Ptk.Props.AgreeDocBase
 import Ptk.Props.C02WordB
@@ -128,22 +128,11 @@ theorem isWordCh_16 (c : Char) : C16.isWordCh c = C02.isWordChar c := by
 
 /-! ### character classes -/
 
-/-- the hypothesis under which the two class functions agree: `\s` matches no `[a-zA-Z0-9_]`
-    (true of every `re` `\s`), or WORD = True (where the word class is not consulted) -/
-def SpOkB (sp : Char → Bool) (big : Bool) : Prop :=
-  big = true ∨ ∀ c, C02.isWordChar c = true → sp c = false
 
-theorem cls_08_brk (sp : Char → Bool) (big : Bool) (h : SpOkB sp big) (c : Char) :
+theorem cls_08_brk (sp : Char → Bool) (big : Bool) (c : Char) :
     C08.cls sp big c = C02.cls sp big c := by
   cases big
-  · have h : ∀ c, C02.isWordChar c = true → sp c = false := by
-      rcases h with h | h
-      · cases h
-      · exact h
-    simp only [C08.cls, C02.cls, C02.clsWord, isWordChar_08_brk, Bool.false_eq_true, if_false]
-    by_cases hw : C02.isWordChar c = true
-    · simp [hw, h c hw]
-    · simp [hw]
+  · simp only [C08.cls, C02.cls, C02.clsWord, isWordChar_08_brk, Bool.false_eq_true, if_false]
   · simp only [C08.cls, C02.cls, C02.clsBig, if_true]
 
 theorem takeWhile_prefixLen (cl : Char → Nat) (k : Nat) (p : Char → Bool)
@@ -157,7 +146,7 @@ theorem takeWhile_prefixLen (cl : Char → Nat) (k : Nat) (p : Char → Bool)
     · simp only [h, decide_true, if_true, List.length_cons, ← ih]
     · simp [h]
 
-theorem currentWordEnd_08 (sp : Char → Bool) (big trailing : Bool) (h : SpOkB sp big) (t : Text) :
+theorem currentWordEnd_08 (sp : Char → Bool) (big trailing : Bool) (t : Text) :
     C08.currentWordEnd sp big trailing t =
       if trailing then C02.currentWordEndWs (C02.cls sp big) sp t
       else C02.currentWordEnd (C02.cls sp big) t := by
@@ -168,10 +157,10 @@ theorem currentWordEnd_08 (sp : Char → Bool) (big trailing : Bool) (h : SpOkB 
       intro k
       apply takeWhile_prefixLen
       intro x
-      rw [cls_08_brk sp big h]
+      rw [cls_08_brk sp big]
       by_cases hx : C02.cls sp big x = k <;> simp [hx]
     simp only [C08.currentWordEnd, C02.currentWordEndWs, C02.currentWordEnd, hl]
-    simp only [cls_08_brk sp big h]
+    simp only [cls_08_brk sp big]
     by_cases hk : C02.cls sp big c = 0
     · cases trailing <;> simp [hk]
     · cases trailing
@@ -184,10 +173,10 @@ theorem currentWordEnd_08 (sp : Char → Bool) (big trailing : Bool) (h : SpOkB 
 theorem currentWordEnd_nil (cl : Char → Nat) : C02.currentWordEnd cl [] = none := rfl
 
 /-- document.py::Document.find_boundaries_of_current_word — `C02.wordBoundaries` (include_leading_whitespace = False) vs `C08.wordBoundaries` -/
-theorem wordBoundaries_08 (sp : Char → Bool) (d : C08.Doc) (big trailing : Bool) (h : SpOkB sp big) :
+theorem wordBoundaries_08 (sp : Char → Bool) (d : C08.Doc) (big trailing : Bool) :
     C08.wordBoundaries sp d big trailing = C02.wordBoundaries sp (of08 d) big false trailing := by
   simp only [C08.wordBoundaries, C02.wordBoundaries, lineBefore_08, lineAfter_08,
-    currentWordEnd_08 sp big _ h, isWordChar_08_brk, of08_text, of08_cur, Bool.false_eq_true, if_false]
+    currentWordEnd_08 sp big, isWordChar_08_brk, of08_text, of08_cur, Bool.false_eq_true, if_false]
   by_cases hc : d.cur = 0
   · have : (C02.lineBefore (of08 d)).reverse = [] := by
       simp [C02.lineBefore, C02.Doc.before, hc, C02.rpartLast]
@@ -203,20 +192,6 @@ theorem wordBoundaries_08 (sp : Char → Bool) (d : C08.Doc) (big trailing : Boo
       congr 1
     rw [e1, e2]
     rfl
-
-/-- without `SpOkB` the two models differ: for a `\s` class containing the word character `a`,
-    text "a", cursor 0: C08 gives (0, 0), C02 gives (0, 1) (the real function gives (0, 1); the real
-    `\s` never contains `a`, so the inputs are outside the domain of the parameter `sp`) -/
-theorem wordBoundaries_08_disagree :
-    C08.wordBoundaries (fun c => c == 'a') ⟨['a'], 0⟩ false false = (0, 0) ∧
-    C02.wordBoundaries (fun c => c == 'a') (of08 ⟨['a'], 0⟩) false false false = (0, 1) := by
-  decide
-
-/-- document.py::Document.find_boundaries_of_current_word — `C02.wordBoundaries` vs `C08.wordBoundaries`,
-    WORD = True: no hypothesis on `sp` -/
-theorem wordBoundaries_08_WORD (sp : Char → Bool) (d : C08.Doc) (trailing : Bool) :
-    C08.wordBoundaries sp d true trailing = C02.wordBoundaries sp (of08 d) true false trailing :=
-  wordBoundaries_08 sp d true trailing (Or.inl rfl)
 
 /-! ### C16 -/
 
